@@ -432,7 +432,6 @@ var ownedPathExceptions = map[string]string{
 	"(*pkg/server.BgpServer).adjRibOutForListPath|Update": "scratch Adj-RIB built for a listing request: it starts empty and receives each (destination, path-id) once, so AdjRib.Update never takes the replaced-entry branch that copies a timestamp onto the incoming path",
 }
 
-
 // passThroughArg: every callee returns (in result ri) one of its own *Path parameters, nil, or a
 // fresh path; then the result is as owned as the corresponding arguments.
 func (c *Ctx) passThroughArg(fn *ssa.Function, call *ssa.Call, ri int, fresh map[*ssa.Function]bool, d int) (string, string, bool) {
@@ -645,7 +644,6 @@ func (c *Ctx) valueFromParams(fn *ssa.Function, v ssa.Value, fresh map[*ssa.Func
 	return false
 }
 
-
 // viaReviewedStrip: the write is reached through postFilterpath's call of RemoveLocalPref.
 func viaReviewedStrip(s own.Sink) bool {
 	if strings.HasPrefix(s.Kind, "via:(*internal/pkg/table.Path).RemoveLocalPref") && ir.FuncKey(s.Fn) == "(*pkg/server.BgpServer).postFilterpath" {
@@ -744,7 +742,6 @@ func (c *Ctx) verifyLocalPrefStripGuards() bool {
 	}
 	return ok1 && n > 0 && ok2
 }
-
 
 // classifyListArg: a []*Path argument: built here from fresh paths only, a parameter of fn, or unknown.
 func (c *Ctx) classifyListArg(fn *ssa.Function, v ssa.Value, fresh map[*ssa.Function]bool, d int) (string, string) {
@@ -865,7 +862,6 @@ func (c *Ctx) returnsFreshList(call *ssa.Call, fresh map[*ssa.Function]bool) boo
 	}
 	return true
 }
-
 
 func viaIngressStrip(s own.Sink) bool {
 	const mark = "via:(*internal/pkg/table.Path).RemoveLocalPref"
